@@ -898,7 +898,8 @@ func (runInfo *runInfoStruct) runDeleteStmt(stmt *ast.DeleteStmt) {
 	if runInfo.err != nil {
 		return
 	}
-	item := runInfo.rv
+	// the map is the one read before the key operand runs
+	item := detachValue(runInfo.rv)
 
 	if stmt.Key != nil {
 		runInfo.expr = stmt.Key
